@@ -4,18 +4,30 @@
    the working tree on every run (coq/gen/Cli.v); doc_* / spec_* are the documented behaviour
    (coq/Cli_Spec.v); cli_decide / cli_main / read_data_* / write_matrix / transpose /
    matrix_from_callback are the executable model (coq/Cli_Model.v). *)
-From Coq Require Import String Ascii List ZArith QArith Bool Arith.
+From Coq Require Import String Ascii List ZArith QArith Bool Arith Permutation.
 From TK Require Import Cli_Model Cli_Spec Cli_Argv_Model Cli_Argv_Spec Cli_Proof_Argv Cli_Proof_Decide Cli_Proof_Files Cli_Proof_Transpose
-  Cli_Proof_Pre Cli_Proof_Main Cli_Proof_Exit Cli_Proof_Round Cli_Proof_Gen Cli.
+  Cli_Proof_Pre Cli_Proof_Main Cli_Proof_Exit Cli_Proof_Round Cli_Proof_Perm Cli_Proof_IntIO Cli_Proof_Gen Cli.
 Import ListNotations.
 Local Close Scope Q_scope.
 Local Open Scope string_scope.
 
-(* ---- wiring: the generated tables are the documented ones (finite; by evaluation) ---- *)
+(* ---- wiring: the generated tables are the documented ones (finite; by evaluation), the early-exit
+   tests up to their order ---- *)
 Theorem cli_wiring :
-  gen_tables = doc_tables /\ gen_read_loop = doc_read_loop /\ gen_precompute = doc_precompute.
+  with_exits gen_tables doc_exits = doc_tables /\ Permutation doc_exits gen_exits /\
+  gen_read_loop = doc_read_loop /\ gen_precompute = doc_precompute.
 Proof. exact gen_tables_all. Qed.
 Print Assumptions cli_wiring.
+
+(* ... and that order is irrelevant: every exit and both handlers of main() return the same code *)
+Theorem cli_exit_order_irrelevant : forall T xs ok g,
+  Permutation (t_exits T) xs -> uniform T g (t_exits T) ->
+  decide_view (with_exits T xs) ok g = decide_view T ok g.
+Proof. exact decide_view_exits_perm. Qed.
+Print Assumptions cli_exit_order_irrelevant.
+
+Example cli_exit_order_irrelevant_nonvacuous : forall g, uniform doc_tables g (t_exits doc_tables).
+Proof. exact doc_exits_uniform. Qed.
 
 Theorem cli_wiring_lines : forall kv, In kv gen_wiring <-> In kv doc_wiring.
 Proof. exact gen_wiring_lines. Qed.
@@ -214,6 +226,19 @@ Proof.
   split; [intros []; reflexivity|]. split; [intros []; reflexivity|].
   repeat constructor.
 Qed.
+
+(* the same with the number format made concrete for integer-valued matrices: no hypothesis left *)
+Theorem cli_roundtrip_integers : forall d c (m : list (list Z)),
+  delim_ok d = true -> 0 < c -> rect Z c m ->
+  read_data_fixed Z parseZ d (write_matrix Z printZ d m) = RMat m /\
+  read_data_shipped Z parseZ d (write_matrix Z printZ d m) = RMat m.
+Proof. exact write_read_integers. Qed.
+Print Assumptions cli_roundtrip_integers.
+
+Example cli_roundtrip_integers_nonvacuous :
+  delim_ok (ascii_of_nat 44) = true /\ delim_ok (ascii_of_nat 32) = true /\ delim_ok (ascii_of_nat 59) = true /\
+  rect Z 2 [[1%Z; (-2)%Z]; [30%Z; 0%Z]].
+Proof. repeat split; try reflexivity. repeat constructor. Qed.
 
 (* transposition flags *)
 Theorem cli_transpose_entry : forall (V : Type) c (m : list (list V)) i j,
